@@ -95,7 +95,7 @@ for p in props:
 hooks_commits = []
 m = {
  "version": 1,
- "setup_cmd": "cd /verif/harness && CARGO_NET_OFFLINE=true cargo build --release --offline",
+ "setup_cmd": "cd /verif && ./vcheck list",
  "hooks": {
    "guard": "jsonb_verif (reserved cfg name; no hook was needed: every property is observable through the public API)",
    "enable": "none needed; checks build /repo's working tree as a path dependency of /verif/harness with overflow checks and debug assertions on",
